@@ -319,6 +319,15 @@ func drawQualifier(t *rapid.T, name string, used map[string]bool) Qualifier {
 	default:
 		key = rapid.SampledFrom(qualifierKeys).Draw(t, name+"_key")
 	}
+	if used[key] && kind != "translation" && rapid.Bool().Draw(t, name+"_same_key_other_case") {
+		// the same qualifier again under a key that differs in letter case only (/note and /Note, /EC_number and
+		// /ec_number): two keys to a case-sensitive map, one to anything that folds case
+		if v := strings.ToUpper(key[:1]) + key[1:]; !used[v] {
+			key = v
+		} else if v := strings.ToUpper(key); !used[v] {
+			key = v
+		}
+	}
 	for used[key] { // distinct keys by construction (the API is a map)
 		key += "_2"
 	}
